@@ -410,7 +410,7 @@ func TestC05_Isolation(t *testing.T) {
 		"(X, k) only ever sees tokens of X/k, deliveries == expectations exactly, acks return to the emitter, a rejected namespace yields connect_error once and never connects, after the disconnects every "+
 		"other namespace of the connection still completes an ack round trip; non-trivial = >= 2 namespaces on one connection with one a prefix of another")
 	rapidGuard(t, "C05", c05Check)
-	runRapid(t, c05Check, tierN(6000, 150000), func(t *rapid.T) {
+	runRapid(t, c05Check, tierN(12000, 150000), func(t *rapid.T) {
 		c := genC05Case(t)
 		f, nt := evalC05(c)
 		ev.Case(c, nt, c.Transport)
